@@ -165,7 +165,9 @@ def run_c15(tier, seed, build):
         res = c["result"]
         shapes.setdefault(c["shape"], []).append(c["n"])
         why = None
-        if c["exit"] != 0 or res is None:
+        if c["exit"] == -999:
+            why = "the case did not finish within its time budget (a case normally takes well under a second)"
+        elif c["exit"] != 0 or res is None:
             why = f"the case did not complete on a 128 KiB stack (exit/signal {c['exit']})"
         else:
             n, ad = res["n"], res["adoptions"]
@@ -277,3 +279,50 @@ def replay_c15(doc, build):
     r = subprocess.run([exe, "case", doc["shape"], str(doc["n"]), str(doc["last"])], cwd=VERIF)
     print("exit", r.returncode)
     return 0 if r.returncode == 0 else 1
+
+
+# ----------------------------------------------------------------------
+# C16 (and C05) at group sizes beyond the history explorer: destructors of a large ring
+# that upgrade a Weak to, explicitly drop, or clone the handle they store to their successor
+# ----------------------------------------------------------------------
+
+def run_c16_big(build):
+    exe = os.path.join(build("plain"), "scale")
+    os.makedirs(TMP, exist_ok=True)
+    out = os.path.join(TMP, f"c16big-{os.getpid()}.json")
+    r = subprocess.run([exe, "bigsweep", "--out", out], cwd=VERIF, stdout=subprocess.PIPE, stderr=subprocess.PIPE, text=True)
+    if r.returncode != 0 or not os.path.exists(out):
+        return None, [], {}
+    with open(out) as f:
+        data = json.load(f)
+    os.remove(out)
+    bad = []
+    aborts = 0
+    for c in data["cases"]:
+        res = c["result"]
+        n = c["n"]
+        why = None
+        if c["shape"] == "bigdrop":
+            if c["exit"] != 0 or res is None:
+                why = f"collecting a ring of {n} whose destructors explicitly drop the handles they store to peers ended with exit/signal {c['exit']} (dropping a handle to a destroyed peer must have no effect)"
+            elif res["destroyed"] != n or res["members_alive_after"] != 0:
+                why = f"{res['destroyed']} of {n} members destroyed, {res['members_alive_after']} still alive after the orphaning drop (explicit drops of dead handles had an effect)"
+            elif res["upgrade_some_in_destructors"] != 0:
+                why = f"{res['upgrade_some_in_destructors']} Weak::upgrade calls on members of the dying group returned Some inside destructors"
+        else:
+            if c["exit"] in (-4, -6) and not c["printed_after_clone"]:
+                aborts += 1
+            else:
+                why = f"member {c['k']} of a ring of {n} cloned the handle to its (dying) successor inside its destructor: expected the process to end by SIGILL/SIGABRT before the clone returns, got exit/signal {c['exit']}, clone returned={c['printed_after_clone']}"
+        if why:
+            bad.append((c, why))
+    lines = []
+    for c, why in bad[:4]:
+        os.makedirs(REPLAYS, exist_ok=True)
+        path = os.path.join(REPLAYS, f"C16-{c['shape']}-{c['n']}-{c['k']}.json")
+        with open(path, "w") as f:
+            json.dump({"property": "C16", "engine": "scale", "shape": c["shape"], "n": c["n"], "last": c["k"], "observed": why, "result": c["result"]}, f, indent=1)
+        lines.append(f"VIOLATION property=C16 replay={path}")
+        lines.append(f"  {why}")
+    cov = {"large_group_cases": len(data["cases"]), "large_group_sizes": sorted(set(c["n"] for c in data["cases"])), "large_group_expected_aborts_observed": aborts}
+    return len(bad), lines, cov
